@@ -21,16 +21,25 @@ RULE = ('hosts = {real Linux interpreter, Darwin-shaped tables, scrambled tables
         'reference; distinct = distinct (section, case)')
 QUICK_SHARDS = 1
 THOROUGH_SHARDS = 1
-HOSTS = ('real', 'darwin', 'scrambled', 'real-hashseed-1', 'real-hashseed-4711')
+HOSTS = ('real', 'darwin', 'scrambled', 'bsdlike', 'real-hashseed-1', 'real-hashseed-4711', 'real-ascii-console')
 
 
 def run_host(host, seed):
     env = dict(os.environ)
+    if isinstance(host, tuple):
+        # ('env', NAME, VALUE): the real host with one more environment variable (see run_one)
+        env[host[1]] = host[2]
+        host = 'real'
     if host.startswith('real-hashseed-'):
         # the interpreter's string-hash randomisation is part of the machine too (set / dict iteration order)
         env['PYTHONHASHSEED'] = host.rsplit('-', 1)[1]
         env['COLUMNS'] = '40'
         env['NO_COLOR'] = '1'
+        host = 'real'
+    if host == 'real-ascii-console':
+        # a console that cannot show non-ASCII text (C / POSIX locale, PYTHONIOENCODING): what the tool computes must not
+        # follow what the terminal can display
+        env.update({'PYTHONIOENCODING': 'ascii', 'LC_ALL': 'POSIX', 'LANG': 'POSIX', 'PYTHONUTF8': '0', 'PYTHONCOERCECLOCALE': '0'})
         host = 'real'
     p = subprocess.run([sys.executable, '-m', 'vlib.hostswap', host, str(seed)], env=env, capture_output=True,
                        text=True, timeout=600)
@@ -112,6 +121,30 @@ def run(ctx):
 
 def run_one(res, ctx, seed):
     outs = {h: run_host(h, seed) for h in HOSTS}
+    # environment variables that code of the repository looked at (recorded by the replaced os.environ): the run is
+    # repeated with each of them set, and must print the same
+    env_reads = sorted({k for o in outs.values() for k in o.pop('_env_reads', [])})
+    res.counters['environment_variables_read_by_the_repository'] = max(
+        res.counters.get('environment_variables_read_by_the_repository', 0), len(env_reads))
+    if env_reads:
+        import tempfile
+        junk = tempfile.NamedTemporaryFile('w', suffix='.txt', delete=False)
+        junk.write('# site file\n0x2f000004 SITE_private_point\n\n')
+        junk.close()
+        try:
+            for name in env_reads[:6]:
+                for value in (junk.name, '1', 'ascii'):
+                    other = run_host(('env', name, value), seed)
+                    other.pop('_env_reads', None)
+                    res.count('environment_perturbations')
+                    diff = [k for k in outs['real'] if other.get(k) != outs['real'][k]]
+                    if diff:
+                        res.violation(f'c18-depends-on-environment-variable', f'the repository reads the environment variable '
+                                      f'{name}; with {name}={value!r} the sections {diff[:4]} of the same workload differ',
+                                      {'variable': name, 'value': value})
+                        break
+        finally:
+            os.unlink(junk.name)
     base = outs['real']
     for section, val in base.items():
         items = val.items() if isinstance(val, dict) else enumerate(val) if isinstance(val, list) else [(0, val)]
